@@ -10,7 +10,7 @@ CHECKS = {
          'Decides the per-kind immittance / phasor formulas, the frequency gating (iff the kind carries a frequency, short/open, exact guard), the RMS / DC wrappers and that each solution is built from the network at its own frequency. Necessary conditions of C02 that hold for every value because they are properties of the code; exactness of the numeric solve is not decided.', '4/C02'),
  'C04': ('E1 normal form of the source-zeroing rewrites; argument-flow of the exemption list; attribute read-sets over the call graph',
          'Decides that zeroing rewrites keep name/terminals/immittance under exactly the stated guard, that exemption lists are threaded, and that the coefficient matrix never reads a source value. Linearity of the numeric solve itself is not decided.', '4/C04'),
- 'C05': ('E1 term normal forms of the six power formulas; index-space typing of the voltage / current read-back the formulas multiply',
+ 'C05': ('E1 term normal forms of the six power formulas (a single sum of per-component products is refuted: cross terms); index-space typing of the voltage / current read-back the formulas multiply',
          'Decides the five power formulas (V conj I, 1/2 for peak, V I, v(t) i(t), series product) and that both factors are queried for the same identifier. The conservation sum and sign inequalities follow mathematically but are not computed.', '4/C05'),
  'C07': ('table agreement (kinds vs dispatch table, keys written vs read), E1 normal forms per translator, traversal shape',
          'Exhaustive over the finite kind table: every constructible kind has a translator, reads only keys its constructor writes, uses every stored parameter, keeps id and terminal order on every path, and equals the per-kind formula; the traversal is one pass filtered only by table membership. Run-time parameter values are not explored.', '4/C07'),
@@ -18,7 +18,7 @@ CHECKS = {
          'Decides purity of the transformers, the terminal-wise rewrite of short contraction (absorbed->retained, element kept, exactly self-loops dropped, reference never absorbed), the open/element filters and label threading. Electrical equivalence of results is not decided.', '4/C16'),
  'C17': ('table-vs-signature agreement, one literal entry evaluated through the loader (decidable lookup errors), key-order invariance of every two-valued kind (entry values applied to symbolic arguments), effect analysis, E1 formulas for complex notations, structural symmetry of the recursive converters, typed-error paths',
          'Decides that each loader entry passes every keyword exactly once to an accepting factory, that no loader/converter writes to its input, the Cartesian/polar/degree formulas, that dictify/undictify recurse alike, and the typed errors. Bit-exact float round trips are not decided.', '4/C17'),
- 'C19': ('sign facts learnt from dominating raise guards (E1), path enumeration for identifier validation (E2), dispatch-table lookup discipline',
+ 'C19': ('sign facts learnt from dominating raise guards (E1), whole raise conditions (paths and guards) compared with the specification as propositional formulas over comparison atoms, path enumeration for identifier validation (E2), dispatch-table lookup discipline',
          'Decides that every constrained constructor parameter is guarded by a dominating raise, the network/circuit invariants and their path coverage, raising lookups in every kind table, and that every returning path of every query validates its identifier.', '4/C19'),
  'C20': ('interprocedural ownership/effect analysis to a fixpoint over the resolved call graph (tables, default callables, partials)',
          'Decides for every function in Network/, Circuit/, SignalProcessing/, dump_load.py that no path writes to a parameter-owned object, mutable default, module global or (outside construction) self, and that no caching decorator exists; a built-in positive example must be reported on every run. Equality of results between histories is implied, not observed.', '4/C20'),
@@ -28,7 +28,7 @@ CHECKS.update({
          'Decides that every index, slice, product, stack and solve of the MNA path joins equal label spaces for every label set, that the system is laid out (N+V), the incidence sign conventions and their relations to the read-back signs, and the per-kind branch-current formulas. Exactness / uniqueness of the numeric solve is not decided.', '4/C01'),
  'C03': ('index-space typing over steady-state, state-space, transient and port code; terminal antisymmetry; no literal reference label',
          'Static form of renaming/permutation invariance: a position may depend on labels or listing order only through one map used on both sides; 280+ join obligations must hold for every label set (not just the suite\'s naming scheme). Floating-point summation order and the relation between two actual runs are not decided.', '4/C03'),
- 'C06': ('def-use typestate of the inverted matrix, index-space typing through pruning, early-return shape, E1 formulas, import binding',
+ 'C06': ('typestate of the inverted matrix (def-use chain, or provenance read off the evaluated result), index-space typing through pruning, early-return shape under hypotheses, E1 formulas, import binding',
          'Decides that the inverted matrix has its ideal voltage sources shorted, that the node is located in the pruned layout of the same re-referenced network, the early returns / swap / terminal wiring, and the Thevenin / Norton / short-circuit formulas. Numerical symmetry and composition laws are not decided.', '4/C06'),
  'C10': ('index-space typing of builder, accessors and wrapper; non-commutative matrix normal forms vs the MNA derivation; builder wiring; mirrored accessors; per-case normal forms of the current rows (own voltage row over own impedance, C times own state row)',
          'Decides that state order, source order and output-row addressing agree for every naming / listing order, that A, B, C, D normalise to the formulas derived from the MNA system (symmetric A~), and the argument wiring. Equality of transfer functions for actual values and conditioning are not decided.', '4/C10'),
